@@ -9,7 +9,8 @@ from common import prove, driver
 
 P = "Matid.Props.C01."
 THEOREMS = [P + t for t in ("localize_disjoint", "localize_only_removes", "merge_species_invariant", "merge_terminates", "merge_keeps_atoms_in_range",
-                            "clean_is_largest_component", "driver_terminates", "driver_indices_in_range")]
+                            "clean_is_largest_component", "driver_terminates", "driver_indices_in_range", "pipeline_order_ok",
+                            "entry_rules_ok", "sbc_keeps_no_state", "pipeline_wellformed")]
 TRUSTED = ["Lean 4 kernel", "axioms: propext, Classical.choice, Quot.sound at most (audited per run)",
            "hand-written model MatidModel/SBC.lean tied by (a) direct drive of _merge_clusters/_localize_clusters/_clean_clusters with synthetic clusters and (b) recorded finder histories of real get_clusters runs",
            "the periodic finder is a parameter of the model (its outputs are arbitrary data in the theorems); DBSCAN contract D1 for the components",
@@ -121,9 +122,12 @@ def recorded_runs(ctx, nrun):
     import crystals
     rng = np.random.default_rng(ctx.seed + 101)
     lines, runs, bad = [], [], []
+    shared = SBC()      # ONE object for all runs: a result must not depend on what the object did before
+    prev_case = prev_case_next = None
     for k in range(nrun):
+        prev_case = prev_case_next
         a, kind = SC.c01_family(rng, k, max_atoms=ctx.n(70, 160))
-        params = SC.sbc_params(rng, k)
+        params = SC.sbc_params(rng, k, kind)
         seed = int(rng.integers(0, 50))
         snap = SC.snapshot(a)
         ctx.count("run_" + kind)
@@ -132,14 +136,25 @@ def recorded_runs(ctx, nrun):
         zero_pbc = any((not np.array(a.get_cell())[i].any()) and a.get_pbc()[i] for i in range(3))
         try:
             with SC.FinderRecorder() as rec:
-                clusters = SBC().get_clusters(a, seed=seed, **params)
+                clusters = shared.get_clusters(a, seed=seed, **params)
         except ValueError as e:
             if not zero_pbc:
                 bad.append({"case": case, "complaints": ["ValueError for a valid cell: %s" % e]})
             continue
         except Exception as e:  # noqa
-            bad.append({"case": case, "complaints": ["exception %s: %s" % (type(e).__name__, str(e)[:200])]})
+            # does a fresh object behave? then the failure is a state leak of the re-used SBC object (history = previous + this input)
+            msg = "exception %s: %s" % (type(e).__name__, str(e)[:200])
+            try:
+                SBC().get_clusters(a, seed=seed, **params)
+                msg = "re-used SBC object fails where a fresh object succeeds (state kept between calls): " + msg
+                case = dict(case, previous_call=prev_case)
+            except Exception:  # noqa
+                pass
+            bad.append({"case": case, "complaints": [msg]})
+            shared = SBC()
             continue
+        finally:
+            prev_case_next = {k2: v for k2, v in case.items() if k2 != "previous_call"}
         ctx.case(("run", k, kind, len(a), seed), nontrivial=len(a) > 1,
                  sample={"kind": kind, "natoms": len(a), "pbc": a.get_pbc().tolist(), "clusters": [len(c.indices) for c in clusters], "finder_calls": len(rec.calls)} if len(ctx.samples) < 6 else None)
         complaints = []
@@ -148,11 +163,12 @@ def recorded_runs(ctx, nrun):
         if not SC.unchanged(a, snap):
             complaints.append("the caller's structure was modified")
         complaints += SC.check_clusters(a, clusters, params)
-        # determinism
+        # determinism: a fresh object must give what the long-lived object gave
         try:
             again = SBC().get_clusters(a, seed=seed, **params)
             if sorted(sorted(int(i) for i in c.indices) for c in again) != sorted(sorted(int(i) for i in c.indices) for c in clusters):
-                complaints.append("a second call with the same arguments returns other clusters")
+                complaints.append("a second call with the same arguments (fresh SBC object vs re-used SBC object) returns other clusters")
+                case = dict(case, previous_call=prev_case)
         except Exception as e:  # noqa
             complaints.append("second call raised %r" % e)
         if complaints:
@@ -185,14 +201,20 @@ def recorded_runs(ctx, nrun):
 def run(ctx):
     common.install_matid()
     broken = []
-    ok, info = prove(ctx, "MatidProps.C01", THEOREMS)
-    if not ok:
-        broken.append(("proof", info))
+    terr = common.regen(ctx, ("sbc_rule",))
+    if terr:
+        for t in THEOREMS:
+            ctx.obligations.append((t, False))
+        broken.append(("translator", terr))
+    else:
+        ok, info = prove(ctx, "MatidProps.C01", THEOREMS)
+        if not ok:
+            broken.append(("proof", info))
     mism = []
     bad = []
     try:
         mism = direct_drive(ctx, ctx.n(900, 30000))
-        m2, bad = recorded_runs(ctx, ctx.n(48, 1600))
+        m2, bad = recorded_runs(ctx, ctx.n(120, 3000))
         mism += m2
     except common.DriverError as e:
         broken.append(("driver", {"error": str(e)[-1000:]}))
